@@ -563,16 +563,23 @@ def canon_vols(vols, surf_class=None):
     sc = surf_class or (lambda s: s)
     memo = {}
 
+    on_path = set()
+
     def term(k, depth=0):
         if k in memo:
             return memo[k]
         if k not in vols or depth > 200:
             return ('DANGLING', k)
+        if k in on_path:
+            # a volume that (directly or not) has itself as an operand: unfolding would never end
+            return ('CYCLE', k)
+        on_path.add(k)
         pl, mi, ops, origin, fict = vols[k]
         kids = None
         if ops is not None:
             kids = (ops[0], frozenset(term(c, depth + 1) if c is not None else ('NONE',) for c in ops[1]))
         t = (frozenset(sc(s) for s in pl), frozenset(sc(s) for s in mi), kids)
+        on_path.discard(k)
         memo[k] = t
         return t
 
